@@ -506,15 +506,24 @@ struct DomGridT {
     }
     return p;
   }
+  // equal points, distinct object, but the grid point 0 stored as -0.0 (floating types only): +0 and -0 are the same point
+  Grid<T> negzero_copy() const {
+    std::vector<T> v = to_s<T>(pa);
+    if constexpr (std::is_floating_point_v<T>)
+      for (auto &e : v) if (e == T(0)) e = -T(0);
+    ArenaScope scope;
+    std::vector<T> w(v);
+    return Grid<T>(std::move(w));
+  }
   static const char *kn(int k) { static const char *N[] = {"eq", "moved3", "movedlast", "ext", "prefix", "movedfirst"}; return N[k]; }
-  size_t n() const { return 6 + 6 + 5 + 3 + 3 + 3 + 3; }
+  size_t n() const { return 6 + 6 + 5 + 3 + 3 + 3 + 3 + 1; }
   std::string name(size_t i) const {
     if (i < 6) return std::string("sA==Support(") + kn((int)i) + ")";
     if (i < 12) return std::string("Support(") + kn((int)i - 6) + ")==sA";
     if (i < 17) { static const char *N[] = {"a+s(eq)", "a+s(moved3)", "a*s(movedlast)", "s(movedfirst)+a", "{t=a;t+=s(moved3)}"}; return N[i - 12]; }
     if (i < 20) { static const char *N[] = {"SP(a,s(eq))", "SP(a,s(movedlast))", "sA.calcUnion(Support(moved3))"}; return N[i - 17]; }
     if (i < 23) { static const char *N[] = {"keep(eq)", "keep(moved3)", "keep(movedlast)"}; return N[i - 20]; }
-    static const char *N[] = {"drop-last", "drop-all", "A==kept", "Grid(unordered)", "Grid(duplicate)", "Grid(valid-temp)"};
+    static const char *N[] = {"drop-last", "drop-all", "A==kept", "Grid(unordered)", "Grid(duplicate)", "Grid(valid-temp)", "sA==Support(eq,-0.0)"};
     return N[i - 23];
   }
   void outcome(Ctx &x, const char *pr, const std::string &w, const std::string &got, const std::string &want) {
@@ -564,6 +573,12 @@ struct DomGridT {
     } else if (i == 24) {
       kept.clear();
       x.results.push_back("-");
+    } else if (i == 29) {
+      Grid<T> t = negzero_copy();
+      Support<T> st(t, 1, 6);
+      bool eq = (sA == st), same = (A == t) && (t == A);
+      std::string un = refusal([&] { (void)sA.calcUnion(st); });
+      outcome(x, "C13", w, std::string(eq ? "eq" : "ne") + (same ? ":samegrid" : ":othergrid") + ":" + un, "eq:samegrid:computed");
     } else if (i >= 26) {
       std::string r = "accepted";
       try { Grid<T> t = mktempgrid<T>(pts(i == 26 ? 6 : i == 27 ? 7 : 0)); } catch (const BSplineException &) { r = "refused"; }
